@@ -6,11 +6,12 @@ import OpcuaModel.Model.MonMap
     add <reqs> <oks>               → wire=<handles on the wire> <state>
     adderr <reqs>                  → <state>
     remove <ids>                   → <state>
+    recreate <handles> <0|1>       → <state>   (a reconnect re-sent the stored requests with these handles, in this order)
     notify <handle>                → <node> | none
     explain <obs>…                 → yes | no
     mono <obs>…                    → yes | no   (values sent for a handle never go back)
   reqs = comma separated `node:ptr` (ptr `-` = nil MonitoringParameters), oks = bits,
-  state = next=<n> handles=<h:node,…> items=<id:node:handle,…> srv=<id:node:handle,…>,
+  state = next=<n> handles=<h:node,…> items=<id:node:handle,…> srv=<id:node:handle,…> stored=<key:node:handle,… sorted>,
   obs = `E:<handle>:<value>` (enqueue under the service lock) | `P:<handle>:<value>,…` (published batch).
 -/
 open Opcua Opcua.Mon
@@ -30,7 +31,8 @@ def showState (s : St) : String :=
   let hs := (List.range (s.next + 1)).filterMap fun k => (s.handles k).map fun n => s!"{k}:{n}"
   let its := s.items.map fun i => s!"{i.id}:{i.node}:{i.handle}"
   let sv := s.srv.map fun i => s!"{i.id}:{i.node}:{i.handle}"
-  s!"next={s.next} handles={join hs} items={join its} srv={join sv}"
+  let st := s.stored.map fun e => s!"{e.key}:{e.node}:{e.handle}"
+  s!"next={s.next} handles={join hs} items={join its} srv={join sv} stored={join (st.mergeSort)}"
 
 def parsePair (s : String) : Option (Nat × Int) :=
   match s.splitOn ":" with
@@ -66,6 +68,14 @@ def handle (s : St) : List String → St × String
   | ["remove", ids] =>
     match (lst ids).mapM (·.toNat?) with
     | some is => let s' := remove s is; (s', showState s')
+    | none => (s, "bad-op")
+  | ["recreate", hs, ok] =>
+    -- the order is given by the client handles of the re-sent requests
+    match (lst hs).mapM (·.toNat?) with
+    | some hl =>
+      let order := hl.filterMap fun h => (s.stored.find? (·.handle == h)).map (·.key)
+      let s' := recreate s order (ok == "1")
+      (s', showState s')
     | none => (s, "bad-op")
   | ["notify", h] =>
     match h.toNat? with
